@@ -84,7 +84,8 @@ fn real_main() {
                 threads: arg(&args, "--threads").and_then(|s| s.parse().ok()).unwrap_or(16),
                 random_programs: arg(&args, "--programs").and_then(|s| s.parse().ok()).unwrap_or(n),
                 wall_cap: arg(&args, "--wall").and_then(|s| s.parse().ok()).map(Duration::from_secs).unwrap_or(cap),
-                cross_every: 10,
+                cross_every: arg(&args, "--cross-every").and_then(|s| s.parse().ok()).unwrap_or(10),
+                directed_limit: arg(&args, "--directed-limit").and_then(|s| s.parse().ok()),
             };
             let o = check::run_check(&cfg);
             if o.new_violations > 0 {
